@@ -124,13 +124,40 @@ package config
 //@     invariant #same def == def0 && lc == lc0 && def != nil && lc != nil && cfg != nil && cfg.Contexts != nil && cfg.Tasks != nil && cfg.Watchers != nil && cfg.Pipelines != nil && cfg.Variables != nil
 //@     invariant #C18.tasks-non-nil forall k string :: k in cfg.Tasks ==> cfg.Tasks[k] != nil
 
+// ---- C15 (CLI glue): which errors can be the not-found sentinel. isNF(e) = errors.Is(e, ErrConfigNotFound).
+// Only two places create it: load() for a path that does not exist, and the default-file lookup. Every other
+// error of the loader is made by fmt.Errorf WITHOUT %w of a nested error, so a missing file further down
+// (below an imported directory) never reaches the caller as "no configuration file": the app's Before hook
+// relies on that when it carries on, with Load's result, after a not-found error.
+//@ pred isNF(e error) := errIs(e, ErrConfigNotFound)
+//@ globalinv #not-found-sentinel ErrConfigNotFound != nil && allocated(unboxptr(ErrConfigNotFound))
 //@ func (*Loader).Load
 //@   requires loaderOK(cl) && cl.dst != nil && cl.dst.Variables != nil
 //@   modifies *
+//@   ensures #C15.config-or-error result#1 == nil ==> result != nil
+//@   ensures #C15.config-has-variables result != nil ==> result.Variables != nil
+//@   ensures #C15.nil-config-only-with-a-real-error result == nil && isNF(result#1) ==> file != ""
+//@   callsite resolveDefaultConfigFile
+//@     assume result#1 == nil ==> fileExists(result) && isAbs(result) // the default file is found by walking up from the (absolute) start directory with FileExists
+//@   callsite decode
+//@     assume !isNF(result#1) // mapstructure's errors are its own
+//@   callsite buildFromDefinition
+//@     assume !isNF(result#1) && loaderOK(cl) && cl.dst == old(cl.dst) && cl.dst != nil && cl.dst.Variables != nil // errors of the builders are made from parts of the definition (fmt.Errorf without the sentinel); the builders are handed the definition only, not the loader: not verified here
+//@   callsite merge
+//@     assume !isNF(result) && loaderOK(cl) && cl.dst == old(cl.dst) && cl.dst != nil && cl.dst.Variables != nil // Config.merge returns mergo's error or nil and keeps a (merged) Variables container; the loader is not touched
 //@ func (*Loader).LoadGlobalConfig
-//@   requires loaderOK(cl) && cl.dst != nil
+//@   requires loaderOK(cl) && cl.dst != nil && cl.dst.Variables != nil
 //@   modifies *
-//@   ensures loaderOK(cl) && cl.dst == old(cl.dst) && cl.imports == old(cl.imports)
+//@   ensures loaderOK(cl) && cl.dst == old(cl.dst) && cl.imports == old(cl.imports) && cl.dst.Variables != nil
+//@   ensures #C15.never-not-found !isNF(result#1)
+//@   callsite load
+//@     assume cl.dst.Variables != nil // load reads files and merges maps: it never touches the destination configuration
+//@   callsite decode
+//@     assume !isNF(result#1) // mapstructure's errors are its own
+//@   callsite buildFromDefinition
+//@     assume !isNF(result#1) && loaderOK(cl) && cl.dst == old(cl.dst) && cl.imports == old(cl.imports) && cl.dst.Variables != nil // as in Load
+//@   callsite merge
+//@     assume !isNF(result) && loaderOK(cl) && cl.dst == old(cl.dst) && cl.imports == old(cl.imports) && cl.dst.Variables != nil // as in Load
 // mergo panics on maps it cannot combine (YAML map[interface{}]interface{} into JSON map[string]interface{}):
 // the panic is recovered here and returned as an error (fix D23)
 //@ func mergeImported
@@ -160,40 +187,44 @@ package config
 //@   ghostlocal nestedFailed bool
 //@   requires loaderOK(cl)
 //@   modifies *
-//@   ensures loaderOK(cl) && cl.imports == old(cl.imports)
+//@   ensures loaderOK(cl) && cl.imports == old(cl.imports) && cl.dst == old(cl.dst)
 //@   ensures #C17.marked cl.imports[file]
 //@   ensures #C17.visited-grows forall f string :: old(cl.imports[f]) ==> cl.imports[f]
 //@   ensures #C17.import-error-propagates nestedFailed ==> err != nil
+//@   ensures #C15.not-found-means-this-file-is-missing isNF(err) ==> !fileExists(file)
 //@   loop 1 "range importList"
-//@     invariant #same cl == cl0 && file == file0 && loaderOK(cl) && cl.imports == old(cl.imports)
+//@     invariant #same cl == cl0 && file == file0 && loaderOK(cl) && cl.imports == old(cl.imports) && cl.dst == old(cl.dst)
 //@     invariant #C17.marked cl.imports[file]
 //@     invariant #C17.visited-grows forall f string :: old(cl.imports[f]) ==> cl.imports[f]
 //@     invariant #C17.no-failure-so-far !nestedFailed
 //@   callsite readFile
 //@     requires #C17.marked-before-read cl.imports[arg0]
+//@     assume !isNF(result#1) // ioutil.ReadFile's / the decoders' errors, flattened with %v (readFile is checked in the C15 sweep for safety only)
 //@   callsite readURL
 //@     requires #C17.marked-before-read cl.imports[arg0]
+//@     assume !isNF(result#1) // http / decoder errors, flattened with %v
 //@   callsite load
 //@     requires #C17.only-unvisited !cl.imports[arg0]
 //@     ghost nestedFailed = nestedFailed || result#1 != nil
 //@   callsite loadDir
 //@     ghost nestedFailed = nestedFailed || result#1 != nil
 //@   callsite mergeImported
-//@     assume loaderOK(cl) && cl.imports == old(cl.imports) && (forall f string :: old(cl.imports[f]) ==> cl.imports[f]) // mergeImported (mergo.Merge) is handed &config and the imported map only: it does not touch the loader
+//@     assume loaderOK(cl) && cl.imports == old(cl.imports) && cl.dst == old(cl.dst) && (forall f string :: old(cl.imports[f]) ==> cl.imports[f]) && !isNF(result) // mergeImported (mergo.Merge) is handed &config and the imported map only: it does not touch the loader; its error is mergo's or the recovered panic
 
 //@ func (*Loader).loadDir
 //@   ghostlocal nestedFailed bool
 //@   requires loaderOK(cl)
 //@   modifies *
-//@   ensures loaderOK(cl) && cl.imports == old(cl.imports)
+//@   ensures loaderOK(cl) && cl.imports == old(cl.imports) && cl.dst == old(cl.dst)
 //@   ensures #C17.visited-grows forall f string :: old(cl.imports[f]) ==> cl.imports[f]
 //@   ensures #C17.import-error-propagates nestedFailed ==> result#1 != nil
+//@   ensures #C15.never-not-found !isNF(result#1)
 //@   loop 1 "range q"
-//@     invariant #same cl == cl0 && loaderOK(cl) && cl.imports == old(cl.imports)
+//@     invariant #same cl == cl0 && loaderOK(cl) && cl.imports == old(cl.imports) && cl.dst == old(cl.dst)
 //@     invariant #C17.visited-grows forall f string :: old(cl.imports[f]) ==> cl.imports[f]
 //@     invariant #C17.no-failure-so-far !nestedFailed
 //@   callsite load
 //@     requires #C17.only-unvisited !cl.imports[arg0]
 //@     ghost nestedFailed = nestedFailed || result#1 != nil
 //@   callsite mergeImported
-//@     assume loaderOK(cl) && cl.imports == old(cl.imports) && (forall f string :: old(cl.imports[f]) ==> cl.imports[f]) // mergeImported (mergo.Merge) is handed &config and the imported map only: it does not touch the loader
+//@     assume loaderOK(cl) && cl.imports == old(cl.imports) && cl.dst == old(cl.dst) && (forall f string :: old(cl.imports[f]) ==> cl.imports[f]) && !isNF(result) // mergeImported (mergo.Merge) is handed &config and the imported map only: it does not touch the loader; its error is mergo's or the recovered panic
